@@ -38,11 +38,11 @@ namespace
   {
     bool done = false;
     std::string note;
-    double ndofs = 0, iters = 0, status = 0, def_init = 0, def_final = 0, h0 = 0, h1 = 0, rhs_norm = 0, sol_norm = 0;
+    double ndofs = 0, iters = 0, status = 0, def_init = 0, def_final = 0, h0 = 0, h1 = 0, rhs_norm = 0, sol_norm = 0, iters2 = 0, def_final2 = 0, sol_norm2 = 0;
     std::string levels, parti;
-    std::vector<double> all() const { return {ndofs, iters, status, def_init, def_final, h0, h1, rhs_norm, sol_norm}; }
+    std::vector<double> all() const { return {ndofs, iters, status, def_init, def_final, h0, h1, rhs_norm, sol_norm, iters2, def_final2, sol_norm2}; }
   };
-  const char* const out_names[] = {"global dofs", "iterations", "status", "initial defect", "final defect", "H0 error", "H1 error", "|rhs|", "|sol|"};
+  const char* const out_names[] = {"global dofs", "iterations", "status", "initial defect", "final defect", "H0 error", "H1 error", "|rhs|", "|sol|", "iterations of the 2nd solve with the same solver objects", "final defect of the 2nd solve", "|sol| of the 2nd solve"};
 
   struct Cfg { std::string mesh; std::string levels; int P; int space; std::string str() const { return "mesh=" + mesh + " levels='" + levels + "' P=" + std::to_string(P) + " space=Lagrange" + std::to_string(space); } };
 
@@ -137,6 +137,16 @@ namespace
     out.def_init = solver->get_def_initial();
     out.def_final = solver->get_def_final();
     out.sol_norm = vec_sol.norm2();
+    {
+      // re-invocation: the same solver, hierarchy, gates and vectors once more, starting from the filtered zero vector
+      vec_sol.format();
+      the_system_level.filter_sys.filter_sol(vec_sol);
+      auto result2 = Solver::solve(*solver, vec_sol, vec_rhs, the_system_level.matrix_sys, the_system_level.filter_sys);
+      (void)result2;
+      out.iters2 = double(solver->get_num_iter());
+      out.def_final2 = solver->get_def_final();
+      out.sol_norm2 = vec_sol.norm2();
+    }
     solver->done();
     multigrid_hierarchy->done();
     auto errors = Assembly::integrate_error_function<1>(the_domain_level.domain_asm, sol_func, vec_sol.local(), the_domain_level.space, cubature);
@@ -246,8 +256,8 @@ int main(int argc, char** argv)
           const std::vector<double> got = outs[size_t(r)].all(), g0 = outs[0].all();
           for(size_t k = 0; k < got.size(); ++k)
           {
-            const bool exact = (k <= 2);
-            const double tol = exact ? 0.0 : 1e-8 * (fabs(want[k]) + (k == 4 ? want[3] * 1e-8 : 0.0)) + (k == 4 ? 1e-9 * want[3] : 0.0);
+            const bool exact = (k <= 2 || k == 9);
+            const double tol = exact ? 0.0 : 1e-8 * (fabs(want[k]) + ((k == 4 || k == 10) ? want[3] * 1e-8 : 0.0)) + ((k == 4 || k == 10) ? 1e-9 * want[3] : 0.0);
             if(!(fabs(got[k] - want[k]) <= tol)) o << out_names[k] << ": rank " << r << " has " << got[k] << ", the one-process run " << want[k] << "; ";
             if(got[k] != g0[k]) o << out_names[k] << ": ranks 0 and " << r << " disagree (" << g0[k] << " vs " << got[k] << "); ";
           }
